@@ -767,6 +767,21 @@ py::list PyTreeSpec::FlattenUpTo(const py::object& full_tree) const {
                         agenda.emplace_back(py::reinterpret_borrow<py::object>(child));
                     }
                 }
+                if (num_out == 3) [[likely]] {
+                    const py::object node_entries = TupleGetItem(out, 2);
+                    if (!node_entries.is_none()) [[likely]] {
+                        const ssize_t num_entries =
+                            TupleGetSize(thread_safe_cast<py::tuple>(node_entries));
+                        if (num_entries != arity) [[unlikely]] {
+                            std::ostringstream oss{};
+                            oss << "PyTree custom flatten function for type "
+                                << PyRepr(node.custom->type)
+                                << " returned inconsistent number of children (" << arity
+                                << ") and number of entries (" << num_entries << ").";
+                            throw std::runtime_error(oss.str());
+                        }
+                    }
+                }
                 if (arity != node.arity) [[unlikely]] {
                     std::ostringstream oss{};
                     oss << "Custom type arity mismatch; expected: " << node.arity
